@@ -36,7 +36,7 @@ def run(repo, res):
     res.rule("R08.2", "site positions are read only as sites_position[<mutations_site>]; num_sites / sites() / Tree.sites() (which expose monomorphic sites) do not appear")
     res.rule("R08.3", "individual linkage (nodes_individual, individuals()) is used only behind a test of the unphased mask, and that mask is ~np.full(num_individuals, singletons_phased)")
     res.rule("R08.4", "dates do not depend on node-flag bits other than NODE_IS_SAMPLE: every read of nodes_flags / .flags is a bitwise test or a whole-column move, never a comparison of the whole word")
-    flagsrule.run(repo, res, "R08.4")
+    flagsrule.run(repo, res, "R08.4", floor=3, scope=["core", "variational", "discrete", "rescaling", "phasing", "prior", "node_time_class", "util.constrain_ages", "util._constrain_ages", "util.mutation_span_array"])
     cg, roots, reach = scope(repo)
     ty = engine(repo, Typing)
     res.count("functions_in_scope", len(reach))
